@@ -611,7 +611,33 @@ def cases(ctx):
         infos.append(("header", dict(nv=nv, clauses=cl, header=[list(x) for x in h], **p)))
     infos += history_infos(common.sub_rng(seed, "C05", "hist"), tier)
     for suite, info in infos:
-        yield build(suite, info)
+        c = build(suite, info)
+        if suite == "subst" and wide_gadget(info):
+            common.HEAVY_REQUESTS.add(c.req)        # wide gadgets: seconds each in the model
+        yield c
+
+
+def wide_gadget(info):
+    """requests that cost the model seconds: arity (or compression degree) 17 and more (2^16 clauses per literal), or a
+    parity / majority gadget whose clause-by-clause product has thousands of clauses"""
+    if (info.get("k") or 0) >= 17:
+        return True
+    g = info.get("graph")
+    if g is not None:
+        deg = {v: len(set(b for a, b in g["edges"] if a == v)) for v in range(1, g["l"] + 1)}
+    elif info.get("t") in ("xor", "maj"):
+        deg = {v: info.get("k") or 1 for v in range(1, info.get("nv", 0) + 1)}
+    else:
+        return False
+    if any(d >= 17 for d in deg.values()):
+        return True
+    total = 0
+    for c in info.get("clauses", []):
+        size = 1
+        for l in c:
+            size *= 2 ** max(deg.get(abs(l), 1) - 1, 0)
+        total += size
+    return total >= 4000
 
 
 def history_infos(rng, tier):
